@@ -65,5 +65,5 @@ MCMaxCritsFor2 == [n \in 1..2 |-> IF n = 1 THEN 2 ELSE 1]
 \* simulation: ranges up to 15 cells (5 x 3), up to three criteria
 SimMaxCells == 15
 SimMaxCritsFor == [n \in 1..15 |-> 3]
-MCFreeMax == 6
+MCFreeMax == 5
 ====
